@@ -98,7 +98,7 @@ fn c16_echo_g12v1_u8() {
 // @props C16
 // @tier thorough
 // @class attempt
-// @timeout 3600
+// @timeout 1800
 // @mem 14
 // @units CommandHeader::{compare, compare_items}, Group12Var1
 // @bounds as c16_echo_g12v1_u8 with 16-bit indices
